@@ -23,6 +23,11 @@ def gen_cases(tier, rng):
         for vs, d, u in oracles.all_admgs(n, acyclic=False):
             for a, b, C in qs(vs):
                 yield {"nodes": vs, "directed": d, "undirected": u, "a": a, "b": b, "C": C}
+                # history family (no hidden state): the same query on a graph object that was queried once *before* its last
+                # edge was added in place through the public API (add_directed_edge / add_undirected_edge)
+                es = [("d", x, y) for x, y in d] + [("u", x, y) for x, y in u]
+                if es:
+                    yield {"nodes": vs, "directed": d, "undirected": u, "a": a, "b": b, "C": C, "added_late": list(rng.choice(es))}
     # every DAG on 4 nodes (no bidirected edge) x every query: 543 x 24
     for vs, d, u in oracles.all_admgs(4):
         if u:
@@ -38,7 +43,11 @@ def gen_cases(tier, rng):
         vs, d, u = oracles.random_admg(rng, n, p_d=rng.choice([0.3, 0.5]), p_u=rng.choice([0.2, 0.4]), acyclic=acyc)
         a, b = rng.sample(vs, 2)
         C = [v for v in vs if v not in (a, b) and rng.random() < 0.4]
-        yield {"nodes": vs, "directed": d, "undirected": u, "a": a, "b": b, "C": C}
+        c = {"nodes": vs, "directed": d, "undirected": u, "a": a, "b": b, "C": C}
+        es = [("d", x, y) for x, y in d] + [("u", x, y) for x, y in u]
+        if es and rng.random() < 0.3:
+            c["added_late"] = list(rng.choice(es))
+        yield c
 
 
 def run_case(c):
@@ -47,8 +56,19 @@ def run_case(c):
     ss = concrete.y0mod("y0.algorithm.separation.sigma_separation")
     V = dsl.Variable
     vs, d, u = c["nodes"], c["directed"], c["undirected"]
-    g = oracles.build(vs, d, u)
     C = [V(x) for x in c["C"]]
+    late = c.get("added_late")
+    if late:
+        kind, x, y = late
+        g = oracles.build(vs, [e for e in d if not (kind == "d" and tuple(e) == (x, y))],
+                          [e for e in u if not (kind == "u" and tuple(e) == (x, y))])
+        try:
+            ss.are_sigma_separated(g, V(c["a"]), V(c["b"]), conditions=C)      # first query, on the graph without the edge
+        except Exception as e:
+            return f"raised {type(e).__name__}: {e}"
+        (g.add_directed_edge if kind == "d" else g.add_undirected_edge)(V(x), V(y))
+    else:
+        g = oracles.build(vs, d, u)
     try:
         s1 = ss.are_sigma_separated(g, V(c["a"]), V(c["b"]), conditions=C)
         s2 = ss.are_sigma_separated(g, V(c["b"]), V(c["a"]), conditions=list(reversed(C)))
